@@ -348,7 +348,7 @@ def run(prop, tier, seed, replay=None):
     ev = {"property_id": prop.pid, "tier": tier, "seed": seed, "level": "proof", "coverage": cov,
           "assumptions": list(prop.assumptions), "wall_s": round(wall, 2), "violations": len(violations),
           "known_findings_hit": [k for k, _ in known_hits]}
-    common.EVIDENCE.mkdir(exist_ok=True)
+    common.EVIDENCE.mkdir(parents=True, exist_ok=True)
     (common.EVIDENCE / f"{prop.pid}.json").write_text(json.dumps(canon(ev), indent=1))
 
     for fp, what in known_hits:
